@@ -349,6 +349,43 @@ func Pair(t *rapid.T, c core.Ctx, op string) (x, y core.Dec) {
 			}
 			return x, y
 		}
+		if Pick(t, 16, "topsum") == 1 {
+			// Two operands with the SAME exponent whose exact sum has one digit more than either
+			// and lands with its adjusted exponent at MaxExponent or one above: the sum needs no
+			// alignment and possibly no rounding, only the range check. Coefficient lengths sit
+			// at the machine-word boundaries as often as elsewhere.
+			n := []int{1, 5, 18, 19, 20, 37, 38, 39, int(c.P), int(c.P) + 1}[Pick(t, 10, "tsn")]
+			if n < 1 {
+				n = 1
+			}
+			lead := []string{"9", "5", "18446744073709551615", "9223372036854775807", "1844674407370955161"}[Pick(t, 5, "tslead")]
+			xs := DigitsN(t, n, 0, "tsx")
+			if len(lead) <= n && Pick(t, 2, "tsuse") == 0 {
+				xs = lead + xs[len(lead):]
+			}
+			xb, _ := new(big.Int).SetString(xs, 10)
+			if xb.Sign() == 0 {
+				xb.SetInt64(7)
+			}
+			// y makes the sum reach n+1 digits: 10^n - x + small
+			yb := new(big.Int).Sub(ref.Pow10(int64(n)), xb)
+			yb.Add(yb, big.NewInt(int64(rapid.IntRange(-2, 40).Draw(t, "tsd"))))
+			if yb.Sign() <= 0 {
+				yb.SetInt64(1)
+			}
+			sum := new(big.Int).Add(xb, yb)
+			e := int64(c.Emax) - int64(len(sum.String())) + 1 + int64(rapid.IntRange(-1, 1).Draw(t, "tse"))
+			neg := rapid.Bool().Draw(t, "tsneg")
+			x = core.Dec{Coeff: xb.String(), Exp: clampExp(e, int64(n)), Neg: neg}
+			y = core.Dec{Coeff: yb.String(), Exp: x.Exp, Neg: neg != (op == "sub")}
+			if rapid.Bool().Draw(t, "tsswap") {
+				x, y = y, x
+				if op == "sub" {
+					x.Neg, y.Neg = !x.Neg, !y.Neg
+				}
+			}
+			return x, y
+		}
 		// exact sum T = x (+/-) y
 		T := Finite(t, c, "T")
 		if Pick(t, 10, "cancel") == 0 {
